@@ -83,7 +83,7 @@ def gen_c02(rnd, n, thorough=False):
     all archives after each write.  NaN-valued writes are kept away from max/min (scan order
     with a NaN among the known values is not determined by the property)."""
     cases = []
-    names = ['ring2', 'ring2c', 'ratioN', 'barely', 'barely3', 'three', 'four', 'tens', 'multipage', 'ring1b']
+    names = ['ring2', 'ring2c', 'ratioN', 'barely', 'barely3', 'three', 'four', 'tens', 'multipage', 'ring1b', 'short2', 'short3', 'short3', 'short3b']
     for c in range(n):
         lname, layout = pick_layout(rnd, names, random_share=0.35, levels=rnd.pick([2, 3, 4]))
         if len(layout) < 2:
@@ -421,6 +421,20 @@ def gen_c05(rnd, n, thorough=False):
             _observe(rnd, lines, layout, list(range(k)), now, nwin=1)
             tags['ops']['unwritable'] = 1
         cases.append({'id': 'c05-%d' % c, 'lines': lines, 'tags': tags})
+    # batches of hundreds of points to one archive (more than any internal chunk), on a file that was
+    # never synced and on a synced one: nothing reaches the file before Sync
+    for j, npts in enumerate([511, 512, 600, 1500] if thorough else [rnd.pick([512, 600]), 1500]):
+        layout = [(1, 1600), (60, 400)]
+        now = 1700000000 + rnd.randint(0, 10 ** 6)
+        pts = [(now - i, small_value(rnd)) for i in range(npts)]
+        lines = [_create('f', layout, 2, 0x3f000000), "disk f"]
+        if j % 2 == 0:
+            lines += ["sync f", "disk f"]
+        lines += [_many('f', rnd.pick([-1, 0]), now, pts), "disk f", "dfetch f 0 %d %d %d" % (now - 20, now, now), "fetch f 1 %d %d %d" % (now - 3000, now, now),
+                  "drop f", "disk f"]
+        if j % 2 == 0:
+            lines += ["open f", "fetch f 0 %d %d %d" % (now - 20, now, now)]
+        cases.append({'id': 'c05-bigbatch-%d' % j, 'lines': lines, 'tags': {'layout': 'big_1600', 'levels': 2, 'ops': {'big_batch': 1}}})
     return cases
 
 
